@@ -7,6 +7,9 @@ package interp
 import (
 	"fmt"
 	"go/token"
+	"os"
+	"path/filepath"
+	"sort"
 	"go/types"
 	"strconv"
 	"strings"
@@ -135,6 +138,42 @@ func init() {
 		"fmt.Printf":            func(fr *frame, a []value) (value, bool) { return tuple{0, iface{}}, true },
 		"fmt.Println":           func(fr *frame, a []value) (value, bool) { return tuple{0, iface{}}, true },
 		"fmt.Print":             func(fr *frame, a []value) (value, bool) { return tuple{0, iface{}}, true },
+		// go:embed data is not part of the SSA program: the embedded build definitions
+		// of please are read from the source tree the program was loaded from
+		"github.com/thought-machine/please/rules.ReadAsset": func(fr *frame, a []value) (value, bool) {
+			name := fr.i.run.concString(a[0], "asset-name")
+			b, err := os.ReadFile(filepath.Join(fr.i.eng.Dir, "rules", filepath.Base(name)))
+			if err != nil || !strings.HasSuffix(name, ".build_defs") || strings.Contains(name, "/") {
+				return tuple{[]value(nil), fr.i.mkError("open " + name + ": file does not exist")}, true
+			}
+			out := make([]value, len(b))
+			for i, c := range b {
+				out[i] = c
+			}
+			return tuple{out, iface{}}, true
+		},
+		"github.com/thought-machine/please/rules.AllAssets": func(fr *frame, a []value) (value, bool) {
+			ms, _ := filepath.Glob(filepath.Join(fr.i.eng.Dir, "rules", "*.build_defs"))
+			sort.Strings(ms)
+			out := make([]value, len(ms))
+			for i, m := range ms {
+				out[i] = filepath.Base(m)
+			}
+			return tuple{out, iface{}}, true
+		},
+		// the process environment is empty unless a check redirects these to a model
+		"os.Getenv": func(fr *frame, a []value) (value, bool) {
+			fr.i.run.stubs["os.Getenv (empty environment)"]++
+			return "", true
+		},
+		"os.LookupEnv": func(fr *frame, a []value) (value, bool) {
+			fr.i.run.stubs["os.LookupEnv (empty environment)"]++
+			return tuple{"", false}, true
+		},
+		"os.Environ": func(fr *frame, a []value) (value, bool) {
+			fr.i.run.stubs["os.Environ (empty environment)"]++
+			return []value(nil), true
+		},
 		"time.Now":              func(fr *frame, a []value) (value, bool) { return zero(fr.fn.Signature.Results().At(0).Type()), true },
 		// timers: by default they never fire inside a bounded scenario (the 10 s
 		// "still waiting" timers of please only log). With Options.QuiescentTimers
